@@ -1029,11 +1029,13 @@ async fn run_case(case: QCase, pems: &Pems) -> Verdict {
                 }
                 St::Closing => {
                     for side in 0..2 {
-                        if judged[side] || actors[watcher[side]].fut.is_some() || progressed {
+                        // demonstrably closed on this side: its closed() resolved, or the stored close reason is there
+                        // (then a still pending closed() is judged like every other future)
+                        let closed_here = actors[watcher[side]].fut.is_none() || ctx.conn(side).close_reason().is_some();
+                        if judged[side] || !closed_here || progressed {
                             continue;
                         }
-                        // closed() resolved on this side and a full pass found nothing runnable: the connection
-                        // is demonstrably closed here, so every future of this side must be complete
+                        // a full pass found nothing runnable: every future of this side must be complete
                         judged[side] = true;
                         let mut stranded = vec![];
                         for a in actors.iter_mut().filter(|a| a.side == side && a.fut.is_some()) {
